@@ -471,6 +471,23 @@ pub fn run(name: &str) -> Option<bool> {
             )
             .is_value()
         }
+        // C15: the static bash stub (`--bpaf-complete-style-bash`) rebuilds the command line as a
+        // string and `eval`s it: `my-app $(cmd)<TAB>` runs `cmd`
+        "bash_stub_evals_typed_words" => {
+            let exe = std::env::current_exe().ok()?;
+            let out = std::process::Command::new(exe)
+                .arg("stub")
+                .arg("bash")
+                .env_clear()
+                .output()
+                .ok()?;
+            let stub = String::from_utf8_lossy(&out.stdout).to_string();
+            if !stub.contains("_bpaf_dynamic_completion") {
+                return None;
+            }
+            let scratch = std::env::temp_dir().join(format!("bpaf-verif-stub-{}", std::process::id()));
+            crate::props::c15::bash_stub_executes_typed_text(&stub, &scratch)?.0
+        }
         _ => return None,
     })
 }
